@@ -572,6 +572,100 @@ def r3(ctx, retsets):
               "families walked over all cells: %s" % sorted(fams_seen), key="C02.R3:src_remove:families")
 
 
+def _pull_up_iterative(ctx, fn, reps):
+    """trie_remove written as a loop, evaluated on a small concrete tree: the node found is 500, the left child of node v is 2v, the right
+    one 2v+1, the data block of node v is 100000+v; the found node has a left spine of two nodes (1000, 2000) and no right children.
+    Each pull-up must take a child of the node the walk stands on into that node and go on at that child; the data block of the node
+    found (100500) must end up in the node the walk ends on - handed down at every step or once at the end - and that node is returned"""
+    pdb = ctx.pdb
+    FOUND, LEAF = 500, 2000
+    bad = []
+    seen = []
+    datamap = {}       # data blocks as the walk has moved them so far (the model tree is followed along one path)
+
+    def present(v):
+        return v in (1000, 2000)
+
+    def node_value(E, e, depth=0):
+        if depth > 6 or not isinstance(e, tuple):
+            return None
+        if e == ("arg", 0):
+            return FOUND
+        if e[0] == "phi" and len(e) == 2:
+            return flow.av_single(E.val("%%%d" % e[1]))
+        if e[0] == "load" and isinstance(e[1], tuple) and e[1][0] == "fld" and vf.last_field(e[1]) in ("trie_node.lchild", "trie_node.rchild"):
+            v = node_value(E, e[1][1], depth + 1)
+            if v is None:
+                return None
+            c = 2 * v + (0 if vf.last_field(e[1]).endswith("lchild") else 1)
+            return c if present(c) else 0
+        return None
+
+    class H(es.CountHooks):
+        def load_value(self, pe, E):
+            if pe[0] == "fld" and vf.last_field(pe) in ("trie_node.lchild", "trie_node.rchild", "trie_node.data"):
+                v = node_value(E, pe[1])
+                if v is None or v == 0:
+                    return None
+                if vf.last_field(pe) == "trie_node.data":
+                    return flow.av_in(datamap.get(v, 100000 + v))
+                c = 2 * v + (0 if vf.last_field(pe).endswith("lchild") else 1)
+                return flow.av_in(c if present(c) else 0)
+            return None
+
+    pending = []
+
+    def classify(inst, E, st):
+        while pending:
+            k_, v_ = pending.pop(0)
+            datamap[k_] = v_
+        cur = int(st.get("cur", str(FOUND)))
+        if inst.op == "call" and inst.callee == "prefix_is_same":
+            return [([], {inst.ref: flow.av_in(1)})]
+        if inst.op == "call" and inst.callee == "trie_is_leaf":
+            v = node_value(E, E.flow.expr(inst.args[0]))
+            if v is None:
+                v = flow.av_single(E.val(inst.args[0]))
+            return [([], {inst.ref: flow.av_in(1 if v == LEAF else 0)})] if v is not None else None
+        if inst.op == "call" and inst.callee == "replace_node_data":
+            dst, src = flow.av_single(E.val(inst.args[0])), flow.av_single(E.val(inst.args[1]))
+            if dst is None:
+                dst = node_value(E, E.flow.expr(inst.args[0]))
+            if src is None:
+                src = node_value(E, E.flow.expr(inst.args[1]))
+            seen.append(inst)
+            if dst != cur or src not in (2 * cur, 2 * cur + 1):
+                bad.append((inst, "pulls node %s into node %s while the walk stands on node %s (expected: one of its children %d / %d into it)" % (src, dst, cur, 2 * cur, 2 * cur + 1)))
+                return flow.KILL
+            # replace_node_data copies prefix, length and data of the child (applied after this call: values read before it keep what they read)
+            pending.append((dst, datamap.get(src, 100000 + src)))
+            return ["=cur:%d" % src, "pulls"]
+        if inst.op == "store" and st.get("pulls") and vf.store_field(inst) == "trie_node.data":
+            pe = E.flow.expr(inst["ptr"])
+            owner = node_value(E, pe[1]) if pe[0] == "fld" else None
+            val = flow.av_single(E.val(inst["val"]))
+            if owner is not None and val is not None:
+                datamap[owner] = val
+            return ["=handed:%s>%s" % (val, owner)]
+        return None
+    h = H(fn, pdb, classify, None, None, 96, None, None, {0: FOUND}, None)
+    fl = flow.Flow(fn, h)
+    fl.run()
+    rets = [(dict(p), flow.av_single(av)) for (i, p, av, f, tr) in fl.ret_states]
+    done = [(c, r) for c, r in rets if c.get("pulls")]
+    if not seen or not done:
+        raise AnalysisBroken("trie_remove (loop form): the walk from the node found to the leaf could not be followed on the model tree")
+    for c, r in done:
+        if c.get("cur") != str(LEAF) or r != LEAF:
+            bad.append((reps[0], "on the model tree 500 -> 1000 -> 2000 the walk ends on node %s and returns node %s (expected the leaf 2000)" % (c.get("cur"), r)))
+        elif c.get("handed") != "%d>%d" % (100000 + FOUND, LEAF):
+            bad.append((reps[0], "the last data block handed over is %s (value>node; expected %d>%d: the found node's block ends up in the leaf that is returned)" % (
+                c.get("handed"), 100000 + FOUND, LEAF)))
+    ctx.check(not bad, "C02.R4", "trie_remove:pull-up@%d" % reps[0].line, (bad[0][0].loc() if bad else reps[0].loc()),
+              bad[0][1] if bad else "model tree 500 -> 1000 -> 2000: each step pulls a child of the current node into it and moves on to that child; the found node's "
+              "data block ends up in the leaf, which is returned (loop form)", key="C02.R4:trie_remove:pull-up")
+
+
 def r4(ctx):
     pdb = ctx.pdb
     ctx.rule("C02.R4", "a node's payload is (prefix, length, data): whenever trie.c copies one of them from another node it copies "
@@ -631,10 +725,7 @@ def r4(ctx):
     # trie_remove: replace_node_data(root, child) followed by child.data = saved root data (the two nodes exchange data blocks)
     fn = pdb.fn("trie_remove")
     ctx.touch(fn)
-    if not fn.calls("trie_remove"):
-        raise AnalysisBroken("trie_remove no longer calls itself: the pull-up rules (which child is pulled up, what is exchanged, where the "
-                             "removal continues) are written for the recursive form - one level per call - and cannot be carried over to "
-                             "another form by matching; re-confirm them for the new form")
+    recursive = bool(fn.calls("trie_remove"))
     reps = fn.calls("replace_node_data")
     ctx.floor("C02.R4", len(reps), 1)
 
@@ -644,7 +735,9 @@ def r4(ctx):
         if e[0] == "phi" and depth < 2:
             return all(is_child(vf.expr(fn, v), depth + 1) for v, b in fn.insts[e[1]]["inc"])
         return False
-    for c in reps:
+    if not recursive:
+        _pull_up_iterative(ctx, fn, reps)
+    for c in (reps if recursive else []):
         child = vf.expr(fn, c.args[1])
         # (dominance, not "same basic block": the three statements may sit in an inlined helper)
         saved = [i for i in fn.all_insts() if i.op == "load" and vf.expr(fn, i["ptr"]) == ("fld", ("arg", 0), "trie_node.data") and fn.dom(i, c)]
@@ -684,6 +777,7 @@ def r4(ctx):
                     return None
 
                 def oracle(inst, pred, a, b, E):
+                    a, b = E.resolve(a), E.resolve(b)
                     for x, y, sw in ((a, b, False), (b, a, True)):
                         if x[0] == "load" and y[0] == "load" and vf.last_field(x[1]) == "trie_node.len" and vf.last_field(y[1]) == "trie_node.len":
                             cx, cy = child_of(x[1][1]), child_of(y[1][1])
@@ -697,7 +791,8 @@ def r4(ctx):
                     if inst.op == "call" and inst.callee == "trie_is_leaf":
                         return [([], {inst.ref: flow.av_in(0)})]
                     if inst.op == "call" and inst.callee == "replace_node_data":
-                        pulled.append(child_of(E.path_expr(inst.args[1])))
+                        pulled.append(child_of(E.resolve(E.path_expr(inst.args[1]))))
+                        return flow.KILL      # the first pull-up below the node found is the one this table is about
                     return None
                 es.count_effects(fn, pdb, classify, None, oracle=oracle, values=values, cap=96)
                 want = {"l"} if (has_l and (not has_r or rel == "lt")) else ({"r"} if (has_r and (not has_l or rel == "gt")) else {"l", "r"})
